@@ -6,7 +6,7 @@ open Emit Py
 /-!
 line protocol (one scenario per line):
 
-  run H=<id,level,catch,enq,kind,filter,dyn,ser;...> F=<i,h,stage,err;...> A=<i,h;...> R=<i,h,j;...>
+  run H=<id,level,catch,enq,kind,filter,dyn,ser;...> F=<i,h,stage,err;...> A=<i,h;...> R=<i,h,j|r<k>|c;...>
       X=<i;...> S=<i;...> N=<i;...> L=<i,level;...> E=<ok|absent|ErrName> D=<depth> O=<group;group;...>
 
   A: (message, handler) pairs the filter rejects      R: re-entrant writes (sink of h logs j while writing i)
@@ -63,6 +63,36 @@ def parseFault (s : String) : Option (Nat × Nat × Stage × Err) :=
     | some i, some h, some st, some e => some (i, h, st, e)
     | _, _, _, _ => none
   | _ => none
+
+/-- `i,h,<j | r<k> | c>`: what the sink of `h` does with the logger while writing message `i` -/
+def parseReenter (s : String) : Option (Nat × Nat × InnerAct) :=
+  match s.splitOn "," with
+  | [i, h, a] =>
+    let act : Option InnerAct :=
+      if a = "c" then some .completeSelf
+      else if a.startsWith "r" then (a.drop 1).toString.toNat?.map InnerAct.removeSelf
+      else a.toNat?.map InnerAct.log
+    match i.toNat?, h.toNat?, act with
+    | some i, some h, some act => some (i, h, act)
+    | _, _, _ => none
+  | _ => none
+
+def parseMode (e : String) : Option StderrMode :=
+  if e = "ok" then some .ok else if e = "absent" then some .absent else (parseErr e).map .fails
+
+/-- `E=<default>/<i>:<mode>/...`: what `sys.stderr` is while message / operation `i` is processed -/
+def parseModes (e : String) : Option (StderrMode × List (Nat × StderrMode)) :=
+  match e.splitOn "/" with
+  | [] => none
+  | d :: rest =>
+    let ovs := allSome (rest.map (fun t => match t.splitOn ":" with
+      | [i, m] => match i.toNat?, parseMode m with
+        | some i, some m => some (i, m)
+        | _, _ => none
+      | _ => none))
+    match parseMode d, ovs with
+    | some d, some ovs => some (d, ovs)
+    | _, _ => none
 
 def parseOp (s : String) : Option Op :=
   if s = "c" then some .complete
@@ -125,11 +155,10 @@ def step (line : String) : String :=
       let cfgs := allSome ((items h ";").map parseCfg)
       let faults := allSome ((items f ";").map parseFault)
       let rej := allSome ((items a ";").map (fun s => nats s ","))
-      let ree := allSome ((items r ";").map (fun s => nats s ","))
+      let ree := allSome ((items r ";").map parseReenter)
       let lv := allSome ((items l ";").map (fun s => nats s ","))
       let groups := allSome ((items o ";").map (fun g => allSome ((items g "+").map parseOp)))
-      let mode : Option StderrMode :=
-        if e = "ok" then some .ok else if e = "absent" then some .absent else (parseErr e).map .fails
+      let mode := parseModes e
       match cfgs, faults, rej, ree, nats x ";", nats s ";", nats nl ";", lv, mode, d.toNat?, groups with
       | some cfgs, some faults, some rej, some ree, some xs, some ss, some nls, some lv, some mode, some d,
         some groups =>
@@ -140,9 +169,11 @@ def step (line : String) : String :=
             hasExc := fun i => xs.contains i,
             fault := fun i hh st => (faults.find? (fun p => p.1 = i ∧ p.2.1 = hh ∧ p.2.2.1 = st)).map (·.2.2.2),
             accept := fun i hh => !(rej.contains [i, hh]),
-            stderr := fun _ _ => mode,
+            stderr := fun i _ => match mode.2.find? (fun p => p.1 = i) with
+              | some p => p.2
+              | none => mode.1,
             strFails := fun i => ss.contains i,
-            reenter := fun i hh => (ree.filter (fun p => p.take 2 = [i, hh])).filterMap (fun p => p[2]?),
+            reenter := fun i hh => (ree.filter (fun p => p.1 = i ∧ p.2.1 = hh)).map (·.2.2),
             loop := fun i => !(nls.contains i) }
         let w := cfgs.foldl (fun w c => addW c w) ({} : World)
         -- registry-level re-entrancy (Emit/Nested.lean); when no sink re-enters, the handler-level model
